@@ -4,7 +4,8 @@ ThreadSched: cooperative scheduler for real OS threads.  Exactly one worker runs
 `line` event that sys.settrace delivers for code living in the statemachine package, and every explicit `point()` inside
 user callbacks, is a numbered step.  A schedule is a list of (step, target): when the global step counter reaches `step`
 the running worker is pre-empted in favour of worker `target` (None = next alive worker, round robin).  `idle()` is a
-voluntary yield (between two sends of one sender).  The library never blocks, so a deadlock can only be a harness bug.
+voluntary yield (between two sends of one sender).  If the worker that was switched to makes no step (it blocks on a short
+library-internal lock held by the pre-empted worker) the pre-emption is taken back and counted as infeasible.
 
 GateSched: asyncio; coroutine callbacks await `point(tag)`; a controller releases the waiting gates in the order given by a
 list of choices, once everything runnable has run.
@@ -24,19 +25,21 @@ PKG = os.path.dirname(os.path.abspath(statemachine.__file__)) + os.sep
 
 
 class ThreadSched:
-    def __init__(self, nworkers, schedule=(), trace_names=False):
+    def __init__(self, nworkers, schedule=(), trace_names=False, block_timeout=0.2):
         self.n = nworkers
-        self.sems = [threading.Semaphore(0) for _ in range(nworkers)]
+        self.cv = threading.Condition()
         self.alive = [True] * nworkers
         self.step = 0
         self.plan = {}
         for stp, tgt in schedule:
             self.plan.setdefault(stp, tgt)
         self.trace_names = trace_names
-        self.names = []  # (step, worker, function name) of every step (baseline runs only)
+        self.names = []  # (step, worker, "<dir>/<file>:<function>") of every step (baseline runs only)
         self.switches = 0
-        self.current = 0
+        self.infeasible = 0  # pre-emptions taken back because the other worker blocked on a lock the pre-empted one holds
+        self.current = None
         self.errors = []
+        self.block_timeout = block_timeout
 
     # ---- tracing
     def _tracer(self, wid):
@@ -59,15 +62,40 @@ class ThreadSched:
                 return j
         return None
 
+    def _await_turn_locked(self, wid):
+        """cv is held. Wait until it is this worker's turn.  If nobody makes a step for a whole timeout, the worker holding the
+        turn is blocked on a (short, library-internal) lock held by a waiting worker: such a schedule is not feasible as
+        planned, so a waiting worker takes the turn (if it is not the lock holder it will block or wait in turn, and the next
+        one takes over).  A spurious take-over under heavy machine load only adds real concurrency for one source line."""
+        mark = self.step
+        while self.current != wid:
+            if self.cv.wait(self.block_timeout):
+                continue
+            if self.current == wid:
+                break
+            if self.step != mark:
+                mark = self.step
+                continue
+            self.infeasible += 1
+            self.current = wid
+            self.cv.notify_all()
+
+    def _wait_turn(self, wid):
+        with self.cv:
+            self._await_turn_locked(wid)
+
     def _switch(self, wid, tgt):
         if tgt is None or tgt == wid or not self.alive[tgt]:
             return
-        self.switches += 1
-        self.current = tgt
-        self.sems[tgt].release()
-        self.sems[wid].acquire()
+        with self.cv:
+            self.switches += 1
+            self.current = tgt
+            self.cv.notify_all()
+            self._await_turn_locked(wid)
 
     def at_step(self, wid, name=None):
+        if self.current != wid:
+            self._wait_turn(wid)
         self.step += 1
         if name is not None:
             self.names.append((self.step, wid, name))
@@ -86,16 +114,18 @@ class ThreadSched:
         """voluntary yield between two sends of one sender"""
         wid = self._wid()
         if wid is not None:
+            if self.current != wid:
+                self._wait_turn(wid)
             self._switch(wid, self._next_alive(wid))
 
     def _wid(self):
         return getattr(threading.current_thread(), "_wid", None)
 
-    def run(self, bodies, timeout=20):
+    def run(self, bodies, timeout=30):
         threads = []
 
         def worker(wid, body):
-            self.sems[wid].acquire()
+            self._wait_turn(wid)
             sys.settrace(self._tracer(wid))
             try:
                 body()
@@ -103,18 +133,20 @@ class ThreadSched:
                 self.errors.append((wid, e))
             finally:
                 sys.settrace(None)
-                self.alive[wid] = False
-                nxt = self._next_alive(wid)
-                if nxt is not None:
-                    self.current = nxt
-                    self.sems[nxt].release()
+                with self.cv:
+                    self.alive[wid] = False
+                    if self.current == wid or self.current is None or not self.alive[self.current]:
+                        self.current = self._next_alive(wid)
+                    self.cv.notify_all()
 
         for i, b in enumerate(bodies):
             t = threading.Thread(target=worker, args=(i, b), daemon=True)
             t._wid = i
             threads.append(t)
             t.start()
-        self.sems[0].release()
+        with self.cv:
+            self.current = 0
+            self.cv.notify_all()
         for t in threads:
             t.join(timeout)
         if any(t.is_alive() for t in threads):
